@@ -41,6 +41,7 @@ type BootCase struct {
 type BootPlan struct {
 	Cases      []BootCase `json:"cases"`       // several keys per boot
 	ConfigPath string     `json:"config_path"` // "" = default location, no -config argument
+	ConfigPos  int        `json:"config_pos,omitempty"` // the -config argument follows this many other arguments (0: first)
 	FileFault  string     `json:"file_fault"`  // "" | absent | unreadable | empty
 	FullBoot   bool       `json:"full_boot"`   // run main() and observe behaviour, else GetOptions only
 	Seed       int64      `json:"seed"`
@@ -143,9 +144,6 @@ func runBoot(p *BootPlan, ch *simrt.Choices, keys []optKey) *bootObs {
 	env := map[string]string{}
 	var fileLines []string
 	args := []string{"vflow"}
-	if p.ConfigPath != "" {
-		args = append(args, "-config", p.ConfigPath)
-	}
 	under := map[string]bool{}
 	for _, c := range p.Cases {
 		k := byYaml[c.Key]
@@ -172,6 +170,14 @@ func runBoot(p *BootPlan, ch *simrt.Choices, keys []optKey) *bootObs {
 				args = append(args, "-"+fk+"="+b[1])
 			}
 		}
+	}
+	if p.ConfigPath != "" {
+		// anywhere on the command line: options in front of it and behind it
+		pos := 1 + p.ConfigPos
+		if pos > len(args) {
+			pos = len(args)
+		}
+		args = append(args[:pos:pos], append([]string{"-config", p.ConfigPath}, args[pos:]...)...)
 	}
 	cpath := configPathOf(p)
 	switch p.FileFault {
@@ -428,6 +434,7 @@ func genBootPlan(seed int64, keys []optKey) *BootPlan {
 	p := &BootPlan{Seed: seed, FullBoot: r.Intn(3) == 0}
 	if r.Intn(3) == 0 {
 		p.ConfigPath = []string{"/opt/vflow/etc/custom.conf", "/etc/vflow/other.conf", "relative.conf"}[r.Intn(3)]
+		p.ConfigPos = []int{0, 0, 1, 2, 5, 100}[r.Intn(6)]
 	}
 	switch r.Intn(8) {
 	case 0:
